@@ -341,6 +341,22 @@ func checkStanzaErr(e stanza.Error, desc string, carrier int) *nd.Violation {
 		if !ok || normErr(got) != desc || riq.Type != stanza.ErrorIQ || !riq.From.Equal(jidPool[2]) {
 			return viol("stanza-error:unmarshal-iq-error", "%s: %s -> UnmarshalIQError = %+v, %v", desc, b, riq, uerr)
 		}
+		// the same reply handed over as tokens (what a handler or a test double
+		// passes on without writing it out), for IQs of each stanza namespace
+		for _, ns := range []string{"", stanza.NSClient, stanza.NSServer} {
+			iq := stanza.IQ{XMLName: xml.Name{Space: ns, Local: "iq"}, ID: "1", Type: stanza.GetIQ, To: jidPool[2]}
+			tr := iq.Error(e)
+			tok, terr := tr.Token()
+			start, isStart := tok.(xml.StartElement)
+			if terr != nil || !isStart {
+				return viol("stanza-error:iq-error-encode", "%s: first token of IQ.Error is %v, %v", desc, tok, terr)
+			}
+			riq, uerr := stanza.UnmarshalIQError(tr, start)
+			got, ok := uerr.(stanza.Error)
+			if !ok || normErr(got) != desc || riq.Type != stanza.ErrorIQ || !riq.From.Equal(jidPool[2]) {
+				return viol("stanza-error:unmarshal-iq-error:tokens", "%s: tokens of IQ.Error (iq namespace %q) -> UnmarshalIQError = %+v, %v", desc, ns, riq, uerr)
+			}
+		}
 	}
 	return nil
 }
